@@ -580,18 +580,36 @@ func (e *Enc) invoke(f *frame, st *State, in *ssa.Call, recv Val, args []Val, re
 	e.oblige("nil", e.site(in), in.Pos(), fmt.Sprintf("(not (= %s 0))", recv.Sub[0].T), e.safetyProps(), "")
 	iface := c.Value.Type()
 	key := typeKey(iface) + "." + c.Method.Name()
-	mods, top := e.w.invokeMods(c)
+	byType, top := e.w.invokeModsByType(c)
+	mods := map[string]bool{}
+	for _, ns := range byType {
+		for n := range ns {
+			mods[n] = true
+		}
+	}
 	if lc, ok := libInvoke[key]; ok {
 		// in-package implementations may also write their own fields; the ghost
 		// cursors of distinct stream objects are independent (assumption)
-		m2 := map[string]bool{}
-		for k := range mods {
-			if k != "Lib#rscur" {
-				m2[k] = true
-			}
+		pre := st.clone()
+		e.implPre(f, st, in, recv, args)
+		e.havocByType(st, recv.Sub[0].T, byType, map[string]bool{"Lib#rscur": true})
+		res := lc(e, f, st, in, recv, args, resShape)
+		e.implPost(f, st, pre, in, recv, args, res, resShape)
+		return res
+	}
+	if !top {
+		// only the implementation selected by the dynamic type runs
+		e.havocByType(st, recv.Sub[0].T, byType, nil)
+		e.havocGhosts(st, mods, false)
+		if e.fc != nil && e.fc.HasModifies && e.noObl == 0 && len(heapNames(mods)) > 0 {
+			e.oblige("frame", "invoke:"+key+"@"+e.site(in), in.Pos(), "false", e.frameProps(), "interface method may write "+strings.Join(heapNames(mods), ","))
 		}
-		e.havocHeaps(st, m2, false, "", false)
-		return lc(e, f, st, in, recv, args, resShape)
+		nn := e.fresh("next", "Int")
+		e.assume(fmt.Sprintf("(>= %s %s)", nn, st.next))
+		st.next = nn
+		res := e.freshVal(resShape, f.prefix+in.Name())
+		e.assumeLoaded(st, res)
+		return res
 	}
 	if top {
 		e.noteHavoc("invoke " + key)
@@ -607,4 +625,137 @@ func (e *Enc) invoke(f *frame, st *State, in *ssa.Call, recv Val, args []Val, re
 	res := e.freshVal(resShape, f.prefix+in.Name())
 	e.assumeLoaded(st, res)
 	return res
+}
+
+// havocByType: heap h is replaced by a version that equals the old one unless
+// the dynamic type of the receiver is one whose implementation may write h.
+func (e *Enc) havocByType(st *State, typT string, byType map[int]map[string]bool, skip map[string]bool) {
+	conds := map[string][]string{}
+	for tag, names := range byType {
+		for n := range names {
+			if skip[n] || strings.HasPrefix(n, "ghost:") {
+				continue
+			}
+			conds[n] = append(conds[n], fmt.Sprintf("(= %s %d)", typT, tag))
+		}
+	}
+	var names []string
+	for n := range conds {
+		names = append(names, n)
+	}
+	sort.Strings(names)
+	for _, n := range names {
+		old, ok := st.heaps[n]
+		if !ok {
+			srt, known := heapSorts[n]
+			if !known {
+				st.markDirty(n, newDirty(false, ""))
+				continue
+			}
+			old = e.heapS(st, n, srt, strings.Contains(n, "[]"))
+		}
+		sort.Strings(conds[n])
+		nh := e.newHeapVersion(old, "v")
+		nh.Ins = []*Heap{old}
+		e.assert(fmt.Sprintf("(=> (not %s) (= %s %s))", or(conds[n]...), nh.Term, old.Term))
+		st.heaps[n] = nh
+	}
+}
+
+// implementers with a contract: dynamic dispatch is modular. If the dynamic
+// type of the receiver is T, T's method pre-condition must hold (obligation)
+// and its post-condition may be assumed.
+func (e *Enc) implContracts(in *ssa.Call) []struct {
+	tag int
+	fn  *ssa.Function
+	fc  *FuncContract
+	t   types.Type
+} {
+	var out []struct {
+		tag int
+		fn  *ssa.Function
+		fc  *FuncContract
+		t   types.Type
+	}
+	c := in.Common()
+	it, ok := c.Value.Type().Underlying().(*types.Interface)
+	if !ok {
+		return nil
+	}
+	scope := e.w.pkg.Pkg.Scope()
+	for _, n := range scope.Names() {
+		tn, ok := scope.Lookup(n).(*types.TypeName)
+		if !ok {
+			continue
+		}
+		for _, t := range []types.Type{tn.Type(), types.NewPointer(tn.Type())} {
+			if _, isI := t.Underlying().(*types.Interface); isI || !types.Implements(t, it) {
+				continue
+			}
+			sel := e.w.prog.MethodSets.MethodSet(t).Lookup(c.Method.Pkg(), c.Method.Name())
+			if sel == nil {
+				continue
+			}
+			m := e.w.prog.MethodValue(sel)
+			if m == nil {
+				continue
+			}
+			if fc := e.w.contracts.Funcs[e.w.funcName(m)]; fc != nil {
+				out = append(out, struct {
+					tag int
+					fn  *ssa.Function
+					fc  *FuncContract
+					t   types.Type
+				}{e.w.typeTag(t), m, fc, t})
+			}
+		}
+	}
+	return out
+}
+
+func (e *Enc) implPre(f *frame, st *State, in *ssa.Call, recv Val, args []Val) {
+	for _, ic := range e.implContracts(in) {
+		env := &SpecEnv{vars: map[string]Val{}, st: st, fc: ic.fc}
+		all := append([]Val{e.unbox(recv, ic.t)}, args...)
+		for i, p := range ic.fn.Params {
+			if i < len(all) {
+				env.vars[p.Name()] = all[i]
+			}
+		}
+		isT := fmt.Sprintf("(= %s %d)", recv.Sub[0].T, ic.tag)
+		for k, c := range ic.fc.Requires {
+			goal := implies(isT, e.safeEvalBool(c, env))
+			e.oblige("pre", fmt.Sprintf("%s/requires%d@%s", e.w.funcName(ic.fn), k+1, e.site(in)), in.Pos(), goal, e.callProps(c), c.Text)
+		}
+	}
+}
+
+func (e *Enc) implPost(f *frame, st, pre *State, in *ssa.Call, recv Val, args []Val, res Val, resShape *Shape) {
+	for _, ic := range e.implContracts(in) {
+		penv := &SpecEnv{vars: map[string]Val{}, st: st, old: pre, fc: ic.fc}
+		all := append([]Val{e.unbox(recv, ic.t)}, args...)
+		for i, p := range ic.fn.Params {
+			if i < len(all) {
+				penv.vars[p.Name()] = all[i]
+			}
+		}
+		names := resultNames(ic.fn)
+		for i, n := range names {
+			var rv Val
+			if resShape.K == KTuple {
+				rv = res.Sub[i]
+			} else {
+				rv = res
+			}
+			penv.vars[n] = rv
+			if len(names) == 1 {
+				penv.vars["result"] = rv
+			}
+		}
+		isT := fmt.Sprintf("(= %s %d)", recv.Sub[0].T, ic.tag)
+		for _, c := range ic.fc.Ensures {
+			e.assume(implies(isT, e.safeEvalBool(c, penv)))
+		}
+		e.usedContracts[e.w.funcName(ic.fn)] = true
+	}
 }
